@@ -23,7 +23,7 @@ P = {
     'C03': ('constant folding vs GF(256)/generator/Table-9 oracles; role-based normal forms of the division loop (single-assignment locals inlined), backed by a counterexample search on probe layouts when the shape is not recognised (a difference is a witness, no difference is UNKNOWN); abstract interpretation of make_final_message and add_codewords on marker codewords / position markers for every version and level',
             'field tables, 18 generator polynomials, 168 block layouts, division loop index forms, operands and bounds, final message order incl. M1/M3 half codeword and remainder bits for every version/level, placement order = ISO 7.7.3 zigzag for the placed markers, surplus refused',
             'that the division computes the Reed-Solomon remainder for every data block (the loop is checked by its index and operand forms, not executed on data); the RS correctability theorem'),
-    'C04': ('capacity table vs oracle (168 cells); abstract interpretation of find_version / encode / encode_sequence over a finite domain of option flags and capacity distances with segment construction, version search and _encode replaced by recorders (fit witness: the segments searched are the segments encoded, version >= result)',
+    'C04': ('capacity table vs oracle (168 cells); abstract interpretation of find_version / encode / encode_sequence over a finite domain of option flags and capacity distances with segment construction and version search replaced by recorders and the symbols observed at the leaf stages of symbol creation (bit buffer, booster, final message, matrix stages, Code; calls read through the reference signature, so that a reorganised _encode or a grown signature does not change the reading) (fit witness: the segments searched are the segments encoded, version >= result)',
             'capacity table, mode availability, first admissible fitting version for every admissible-range combination, requested-version test, fit witness per _encode call on every path of encode / encode_sequence, bits budgeted = bits written',
             'the payload bit count of a concrete content (its formula is C01.R2/R3)'),
     'C05': ('constant folding (monotone capacities for 44 versions); abstract interpretation of boost_error_level (decision table over version x requested level x both sides of every capacity x segment count) and of _encode with the real booster on a segment model whose bit count depends on the version asked about (stage trace); decision table of encode',
@@ -35,7 +35,7 @@ P = {
     'C07': ('abstract interpretation of find_mode with the content abstracted to isdigit() and every compiled pattern / the kanji predicate to one answer (decision table over the eight outcomes); regex AST of the alphanumeric pattern per consulting method (match / fullmatch / search); truth table of is_kanji; abstract interpretation of the head of make_segment and of encode over mode x version',
             'detection order/return set, whole-string use of the pattern and class = 45 characters, kanji ranges and trail bytes, requested-mode decision table, evenness guard, mode/version refusal for 6 x 44 combinations, reported mode = written indicator',
             'codec behaviour'),
-    'C08': ('abstract interpretation of encode_sequence with the content abstracted to position markers and segment construction, version search, parity and _encode replaced by recorders; _encode stage trace for the header bits',
+    'C08': ('abstract interpretation of encode_sequence with the content abstracted to position markers, segment construction, version search and parity replaced by recorders and every symbol observed at the leaf stages of symbol creation (the Structured Append header decoded from the bits in the buffer when the first segment is written)',
             'k symbols whose chunks concatenate to the content, whole-message mode/encoding, header fields and widths before any segment, shared parity over the message bytes in the chunk encoding, common fitting version, per-chunk fit witness, refusals',
             'that concatenated decoded payloads equal the content (needs C01 whole)'),
     'C09': ('abstract interpretation of every raster/text serialiser on a pattern symbol with reference row sources and a recording output; the output is decoded by an independent reader of the format (PBM P1/P4, PAM, PPM, XPM, XBM, PNG incl. CRC/IHDR/PLTE/tRNS/filters, ANSI and half-block terminal) and compared with the picture of the pattern symbol, over a grid of sizes, scales (incl. fractional and byte-aligned widths), borders and colour classes',
